@@ -269,7 +269,8 @@ func (te *tableEngine) settleGame() []*TablePlayerState {
 	for _, player := range te.table.State.GameState.Result.Players {
 		playerIdx := te.table.State.GamePlayerIndexes[player.Idx]
 		playerState := te.table.State.PlayerStates[playerIdx]
-		playerState.Bankroll = player.Final
+		// credit the result of this hand; chips added while the hand was running (re-buy / add-on) stay
+		playerState.Bankroll += player.Changed
 
 		// 更新玩家攤牌勝率
 		p := te.table.State.GameState.GetPlayer(player.Idx)
